@@ -62,7 +62,7 @@ theorem finish_branch (c : Cfg) (ar aq : Nat) (s : S) (r : Reason) (b : Base c a
   · have : peTail c h true = (dsResetStream c h, some .End) := by
       unfold peTail; rw [if_pos hd]
     rw [this]
-    exact tail_down c ar aq h hb e_cl (fun hf => by
+    exact tail_down c ar aq h hb e_cl hd (fun hf => by
       subst hh; simp [sendHijack, orFlag, hup, hpd, how] at hf)
   · have : peTail c h true = ({ h with direct := false, rs := none }, some .UpFilter) := by
       unfold peTail
@@ -170,7 +170,7 @@ theorem upreset_branch (c : Cfg) (ar aq : Nat) (s : S) (b : Base c ar aq s) (hru
         by_cases hd : r.downReset = true
         · have : peTail c r true = (dsResetStream c r, some .End) := by unfold peTail; rw [if_pos hd]
           rw [this]
-          exact tail_down c ar aq r hbr r_cl (fun hf => by subst hr; simp [e_up, e_pd, how] at hf)
+          exact tail_down c ar aq r hbr r_cl hd (fun hf => by subst hr; simp [e_up, e_pd, how] at hf)
         · have r_dir : r.direct = false := by subst hr; exact hdir
           have r_su : (r.up.isSome && r.setupRetry) = true := by subst hr; simp [e_up]
           have : peTail c r true = ({ r with setupRetry := false }, some .Retry) := by
